@@ -181,3 +181,62 @@ pub fn run(req: &Sx) -> (Sx, Sx) {
         Outcome::EmitErr(m) => (list(vec![atom("emit-error"), st(&m)]), ok),
     }
 }
+
+// ---------- det mode (C10): the outcome must not depend on hash seeds, threads or file registration order ----------
+fn fnv(s: &str) -> u64 {
+    let mut h: u64 = 0xcbf29ce484222325;
+    for b in s.as_bytes() {
+        h ^= *b as u64;
+        h = h.wrapping_mul(0x100000001b3);
+    }
+    h
+}
+fn outcome_text(files: &[(String, String)], s: &[String], n: &[String], order: Option<&[usize]>) -> String {
+    format!("{}", outcome_sx(compile_files(files, s, n, order)))
+}
+pub fn run_det(req: &Sx) -> (Sx, Sx) {
+    let files = files_of(req);
+    let (s, n) = settings_of(req);
+    let base = outcome_text(&files, &s, &n, None);
+    let kind = base[1..].split(|c: char| c == ' ' || c == ')').next().unwrap_or("").to_string();
+    let mut fails: Vec<Sx> = vec![];
+    // same thread again (every std HashMap gets fresh keys), then fresh threads with permuted registration orders
+    if outcome_text(&files, &s, &n, None) != base {
+        fails.push(atom("c10.repeat"));
+    }
+    let mut rng = Rng::new(fnv(&base) ^ 0x9e37);
+    let rounds = if files.len() > 1 { 4 } else { 2 };
+    for k in 0..rounds {
+        let mut order: Vec<usize> = (0..files.len()).collect();
+        if k > 0 {
+            for i in (1..order.len()).rev() {
+                let j = rng.below(i + 1);
+                order.swap(i, j);
+            }
+            if k == 1 {
+                order = (0..files.len()).rev().collect();
+            }
+        }
+        let (f2, s2, n2, o2) = (files.clone(), s.clone(), n.clone(), order.clone());
+        let h = std::thread::Builder::new().stack_size(64 << 20).spawn(move || outcome_text(&f2, &s2, &n2, Some(&o2))).unwrap();
+        let other = h.join().unwrap_or_else(|_| "(panic-in-thread)".to_string());
+        if other != base {
+            fails.push(list(vec![atom(if k == 0 { "c10.thread" } else { "c10.order" }), list(order.iter().map(|i| num(*i)).collect()), st(&diff_hint(&base, &other))]));
+            break;
+        }
+    }
+    let reply = list(vec![atom("det"), atom(&kind), st(&format!("{:016x}", fnv(&base)))]);
+    if fails.is_empty() {
+        (reply, list(vec![atom("oracle"), atom("ok")]))
+    } else {
+        let mut v = vec![atom("oracle"), atom("fail")];
+        v.extend(fails);
+        (reply, list(v))
+    }
+}
+fn diff_hint(a: &str, b: &str) -> String {
+    let i = a.bytes().zip(b.bytes()).take_while(|(x, y)| x == y).count();
+    let lo = i.saturating_sub(60);
+    let cut = |s: &str| s.chars().skip(lo).take(160).collect::<String>();
+    format!("at byte {}: {} <> {}", i, cut(a), cut(b))
+}
